@@ -331,6 +331,10 @@ def check(ctx):
                okret, detail=short(rt) if rt else "no return")
     ctx.require_min("kernels calling mh_step", callers, 3)
 
+    # ---- shared mechanisms: the neighbour's rules run as obligations of this property
+    ctx.include("C06", "C05.R6", only=['C06.R2'])
+    ctx.rule("R6", "shared mechanisms, run as obligations of this property: an undefined IWLS backward density must reach mh_step as NaN (C06.R2).")
+
 
 def contains_exp_of(t, inner):
     return any(x == inner for x in subterms(t))
